@@ -1,0 +1,13 @@
+//go:build verif
+
+package parse
+
+// VerifOnNewError, when set, observes the byte offset and message every Error is built from.
+// It exists only under the verif build tag and is used by runtime monitors.
+var VerifOnNewError func(offset int, message string)
+
+func verifNewError(offset int, message string) {
+	if VerifOnNewError != nil {
+		VerifOnNewError(offset, message)
+	}
+}
